@@ -18,7 +18,12 @@
          C14_cert_sound (all four parts of [lsa_spec]), C14_step_preserves_invariant, C14_total_correct.
     5  "non-finite or non-numeric matrices are refused"
          C14_refuses_nonfinite (inf, -inf, nan, ragged -> ValueError), C14_finite_reaches_solver,
-         C14_validated_entry_correct.  Non-numeric dtypes, 1-d / 3-d / scalar input: only correspondence/oracle
+         C14_validated_entry_correct; C14_generated_driver_is_the_model: the refusal test (which of isinf / isnan /
+         isposinf / isneginf / ~isfinite are or-ed under np.any), the orientation test, the early exit for an empty
+         dimension, the first step, the result views (read from the state AFTER the driver loop, transposed back for
+         tall input) and the star code of linear_sum_assignment are translated from scipy_hungarian.py on every run
+         (Gen/HungarianGlue.v, fail-closed) and proved equal to the model [lsa_in] for all inputs, so
+         C14_generated_entry_refuses / C14_generated_entry_correct are about the driver the code has now.  Non-numeric dtypes, 1-d / 3-d / scalar input: only correspondence/oracle
          (refusal stream; numpy's asarray/dtype lattice is not modelled).
     Entry points and options (observe_at): return_cost=True is the model; return_cost omitted/False, nested-list
     input, the name qcelemental.util.linear_sum_assignment vs the defining module, a repeated call (history), and
@@ -27,7 +32,8 @@
     correspondence of every run (C14_traced_run_is_lsa ties the digest-carrying run to [lsa]). *)
 From Coq Require Import ZArith List Bool Arith Sorted.
 Require Import QV.Common.Outcome QV.Model.Hungarian QV.Proofs.HungarianCert QV.Proofs.HungarianInv
-  QV.Proofs.HungarianFinal QV.Proofs.HungarianTotal QV.Proofs.HungarianTerm QV.Proofs.HungarianTrace.
+  QV.Proofs.HungarianFinal QV.Proofs.HungarianTotal QV.Proofs.HungarianTerm QV.Proofs.HungarianTrace
+  QV.Gen.HungarianGlue QV.Proofs.HungarianGlue.
 Import ListNotations.
 Open Scope Z_scope.
 
@@ -102,6 +108,21 @@ Theorem C14_validated_entry_correct :
   forall M res, lsa_in M = Ok res -> lsa_spec (map (map cell_val) M) res.
 Proof. exact lsa_in_correct. Qed.
 
+(** Tie: the driver translated from linear_sum_assignment on every run (refusal test, orientation, early exit, first
+    step, result views after the loop, star code) is the model's validated entry point, for all inputs ... *)
+Theorem C14_generated_driver_is_the_model : forall M, gen_lsa_in M = lsa_in M.
+Proof. exact gen_lsa_in_is_lsa_in. Qed.
+
+(** ... so the generated driver refuses every matrix with a non-finite entry and whatever it returns satisfies the
+    property. *)
+Theorem C14_generated_entry_refuses :
+  forall M r c, In r M -> In c r -> is_fin c = false -> gen_lsa_in M = Err PyValueError.
+Proof. intros M r c H1 H2 H3. rewrite gen_lsa_in_is_lsa_in. exact (lsa_in_refuses M r c H1 H2 H3). Qed.
+
+Theorem C14_generated_entry_correct :
+  forall M res, gen_lsa_in M = Ok res -> lsa_spec (map (map cell_val) M) res.
+Proof. intros M res H. rewrite gen_lsa_in_is_lsa_in in H. exact (lsa_in_correct M res H). Qed.
+
 (** The digest-carrying run that the correspondence check evaluates returns exactly the result of [lsa]. *)
 Theorem C14_traced_run_is_lsa : forall C, fst (fst (lsa_tr C)) = lsa C.
 Proof. exact lsa_tr_result. Qed.
@@ -118,6 +139,9 @@ Example C14_ex_invariant : good ex_C 3 4 S1 (init_state ex_C).
 Proof. apply init_state_ok; [split; [reflexivity | repeat constructor] | repeat constructor]. Qed.
 Example C14_ex_refuse : lsa_in [[Fin 1; PInf]; [Fin 2; Fin 3]] = Err PyValueError.
 Proof. reflexivity. Qed.
+Example C14_ex_gen_refuse : gen_lsa_in [[Fin 1; Fin 2]; [NInf; Fin 3]] = Err PyValueError
+                            /\ gen_lsa_in (map (map Fin) ex_C) = Ok ex_res.
+Proof. split; vm_compute; reflexivity. Qed.
 
 Print Assumptions C14_cert_sound.
 Print Assumptions C14_certificate_optimal.
@@ -130,4 +154,7 @@ Print Assumptions C14_total_correct.
 Print Assumptions C14_refuses_nonfinite.
 Print Assumptions C14_finite_reaches_solver.
 Print Assumptions C14_validated_entry_correct.
+Print Assumptions C14_generated_driver_is_the_model.
+Print Assumptions C14_generated_entry_refuses.
+Print Assumptions C14_generated_entry_correct.
 Print Assumptions C14_traced_run_is_lsa.
